@@ -70,10 +70,1108 @@ def countersFrom (acc : Int × Int) : List Op → List Out → Int × Int
 /-- running sums of the queue / in-flight deltas, reset by a clean `Init` -/
 def counters (ops : List Op) (outs : List Out) : Int × Int := countersFrom (0, 0) ops outs
 
-/-! ### lemmas (TO BE PROVED — no sorry may remain) -/
+/-! ### basic facts about `extractFirst` / `replaceFirst` -/
+
+theorem extractFirst_eq (p : Elem → Bool) (l : List Elem) :
+    extractFirst p l = (l.find? p).map (fun v => (v, l.eraseP p)) := by
+  induction l with
+  | nil => rfl
+  | cons e es ih =>
+    simp only [extractFirst, List.find?_cons, List.eraseP_cons]
+    cases h : p e
+    · simp only [ih]
+      cases List.find? p es <;> simp
+    · simp
+
+theorem extractFirst_some {p : Elem → Bool} {l l' : List Elem} {v : Elem}
+    (h : extractFirst p l = some (v, l')) :
+    p v = true ∧ List.Perm (v :: l') l ∧ l'.Sublist l := by
+  induction l generalizing l' with
+  | nil => simp [extractFirst] at h
+  | cons e es ih =>
+    simp only [extractFirst] at h
+    split at h
+    · next hp =>
+      simp only [Option.some.injEq, Prod.mk.injEq] at h
+      obtain ⟨rfl, rfl⟩ := h
+      exact ⟨hp, .refl _, List.sublist_cons_self _ _⟩
+    · split at h
+      · next w es' heq =>
+        simp only [Option.some.injEq, Prod.mk.injEq] at h
+        obtain ⟨rfl, rfl⟩ := h
+        obtain ⟨h1, h2, h3⟩ := ih heq
+        exact ⟨h1, (List.Perm.swap _ _ _).trans (h2.cons e), h3.cons_cons e⟩
+      · simp at h
+
+theorem extractFirst_mem {p : Elem → Bool} {l l' : List Elem} {v : Elem}
+    (h : extractFirst p l = some (v, l')) : v ∈ l :=
+  (extractFirst_some h).2.1.subset (List.mem_cons_self)
+
+theorem extractFirst_length {p : Elem → Bool} {l l' : List Elem} {v : Elem}
+    (h : extractFirst p l = some (v, l')) : l.length = l'.length + 1 := by
+  have := (extractFirst_some h).2.1.length_eq
+  simpa using this.symm
+
+/-! ### 7. drop ladder -/
+
+theorem chooseVictim_spec (q : Q) (now : Nat) (e : Elem) :
+    chooseVictim q now e =
+      match q.done.find? (expired now) with
+      | some v => .inflight v (q.done.eraseP (expired now))
+      | none =>
+        match q.rest.find? (fun x => isQueued x && expired now x) with
+        | some v => .queued v .expired (q.rest.eraseP (fun x => isQueued x && expired now x))
+        | none =>
+          match q.rest.find? (fun x => isQueued x && x.qos == 0) with
+          | some v => .queued v .full (q.rest.eraseP (fun x => isQueued x && x.qos == 0))
+          | none =>
+            if e.qos == 0 then .newcomer
+            else match q.rest.find? isQueued with
+              | some v => .queued v .full (q.rest.eraseP isQueued)
+              | none => .newcomer := by
+  unfold chooseVictim
+  simp only [extractFirst_eq]
+  cases h1 : q.done.find? (expired now) with
+  | some v => simp
+  | none =>
+    simp only [Option.map_none]
+    by_cases hd : (q.drained && q.rest.isEmpty) = true
+    · simp only [hd, if_true]
+      simp only [Bool.and_eq_true, List.isEmpty_iff] at hd
+      simp [hd.2]
+    · simp only [hd]
+      cases h2 : q.rest.find? (fun x => isQueued x && expired now x) with
+      | some v => simp
+      | none =>
+        cases h3 : q.rest.find? (fun x => isQueued x && x.qos == 0) with
+        | some v => simp
+        | none =>
+          cases h4 : q.rest.find? isQueued <;> simp
+
+theorem add_of_not_full (q : Q) (now : Nat) (e : Elem) (h : q.items.length < q.max) :
+    q.add now e = ({ q with rest := q.rest ++ [e] }, [.queued 1]) := by
+  unfold Q.add
+  rw [if_neg (by omega)]
+
+/-! ### case analysis of one step -/
+
+theorem chooseVictim_cases (q : Q) (now : Nat) (e : Elem) :
+    (∃ v done', extractFirst (expired now) q.done = some (v, done') ∧
+      chooseVictim q now e = .inflight v done') ∨
+    (∃ v r rest' p, extractFirst p q.rest = some (v, rest') ∧ (∀ x, p x = true → isQueued x = true) ∧
+      chooseVictim q now e = .queued v r rest') ∨
+    chooseVictim q now e = .newcomer := by
+  unfold chooseVictim
+  rcases h1 : extractFirst (expired now) q.done with _ | ⟨v, d⟩
+  · simp only
+    split
+    · exact .inr (.inr rfl)
+    · rcases h2 : extractFirst (fun x => isQueued x && expired now x) q.rest with _ | ⟨v, d⟩
+      · simp only
+        rcases h3 : extractFirst (fun x => isQueued x && x.qos == 0) q.rest with _ | ⟨v, d⟩
+        · simp only
+          split
+          · exact .inr (.inr rfl)
+          · rcases h4 : extractFirst isQueued q.rest with _ | ⟨v, d⟩
+            · exact .inr (.inr rfl)
+            · exact .inr (.inl ⟨v, _, d, _, h4, fun _ h => h, rfl⟩)
+        · exact .inr (.inl ⟨v, _, d, _, h3, by intro x hx; simp at hx; exact hx.1, rfl⟩)
+      · exact .inr (.inl ⟨v, _, d, _, h2, by intro x hx; simp at hx; exact hx.1, rfl⟩)
+  · exact .inl ⟨v, d, rfl, rfl⟩
+
+theorem add_elim {P : Q × Out → Prop} (q : Q) (now : Nat) (e : Elem)
+    (h1 : q.items.length < q.max →
+      P ({ q with rest := q.rest ++ [e] }, { evs := [.queued 1] }))
+    (h2 : ∀ v done', q.max ≤ q.items.length → extractFirst (expired now) q.done = some (v, done') →
+      P ({ q with done := done', rest := q.rest ++ [e] },
+         { evs := [.inflight (-1), .dropped v .expiredInflight] }))
+    (h3 : ∀ v r rest' p, q.max ≤ q.items.length → extractFirst p q.rest = some (v, rest') →
+      (∀ x, p x = true → isQueued x = true) →
+      P ({ q with rest := rest' ++ [e] }, { evs := [.dropped v r] }))
+    (h4 : q.max ≤ q.items.length → P (q, { evs := [.dropped e .full] })) :
+    P (step q (.add now e)) := by
+  simp only [step, Q.add]
+  by_cases hfull : q.items.length ≥ q.max
+  · simp only [hfull, if_true]
+    rcases chooseVictim_cases q now e with ⟨v, d, hx, hc⟩ | ⟨v, r, rest', p, hx, hp, hc⟩ | hc
+    · simp only [hc]; exact h2 v d hfull hx
+    · simp only [hc]; exact h3 v r rest' p hfull hx hp
+    · simp only [hc]; exact h4 hfull
+  · simp only [hfull, if_false]
+    exact h1 (by omega)
+
+theorem read_cases (q : Q) (now : Nat) (pids : List Nat) :
+    q.read now pids = (q, .panic) ∨ q.read now pids = (q, .blocked) ∨ q.read now pids = (q, .closed) ∨
+    (q.drained = true ∧ q.closed = false ∧
+      q.read now pids =
+        ({ q with done := q.done ++ (readLoop now q.ie q.limit (min pids.length q.items.length) q.rest pids).kept,
+                  rest := (readLoop now q.ie q.limit (min pids.length q.items.length) q.rest pids).rest },
+         .ok (readLoop now q.ie q.limit (min pids.length q.items.length) q.rest pids).out
+           ((readLoop now q.ie q.limit (min pids.length q.items.length) q.rest pids).evs ++
+             [.queued (readLoop now q.ie q.limit (min pids.length q.items.length) q.rest pids).qd,
+              .inflight (readLoop now q.ie q.limit (min pids.length q.items.length) q.rest pids).ind]))) := by
+  unfold Q.read
+  split
+  · exact .inl rfl
+  · next hd =>
+    split
+    · exact .inr (.inl rfl)
+    · split
+      · exact .inr (.inr (.inl rfl))
+      · next hc => exact .inr (.inr (.inr ⟨by simpa using hd, by simpa using hc, rfl⟩))
+
+theorem read_elim {P : Q × Out → Prop} (q : Q) (now : Nat) (pids : List Nat)
+    (h1 : ∀ s, P (q, { status := s }))
+    (h2 : q.drained = true → q.closed = false →
+      P ({ q with done := q.done ++ (readLoop now q.ie q.limit (min pids.length q.items.length) q.rest pids).kept,
+                  rest := (readLoop now q.ie q.limit (min pids.length q.items.length) q.rest pids).rest },
+         { evs := (readLoop now q.ie q.limit (min pids.length q.items.length) q.rest pids).evs ++
+             [.queued (readLoop now q.ie q.limit (min pids.length q.items.length) q.rest pids).qd,
+              .inflight (readLoop now q.ie q.limit (min pids.length q.items.length) q.rest pids).ind],
+           returned := (readLoop now q.ie q.limit (min pids.length q.items.length) q.rest pids).out })) :
+    P (step q (.read now pids)) := by
+  simp only [step]
+  rcases read_cases q now pids with h | h | h | ⟨hd, hc, h⟩
+  · simp only [h]; exact h1 _
+  · simp only [h]; exact h1 _
+  · simp only [h]; exact h1 _
+  · simp only [h]; exact h2 hd hc
+
+theorem readInflight_elim {P : Q × Out → Prop} (q : Q) (now n : Nat)
+    (h1 : q.rest = [] → P ({ q with drained := true }, { returned := [], replay := true }))
+    (h2 : ∀ out rest' d, inflightLoop now q.ie (min n q.items.length) q.rest = (out, rest', d) →
+      P ({ q with done := q.done ++ out, rest := rest', drained := q.drained || d },
+         { returned := out, replay := true })) :
+    P (step q (.readInflight now n)) := by
+  simp only [step, Q.readInflight]
+  by_cases he : (q.items.isEmpty || q.rest.isEmpty) = true
+  · simp only [he, if_true]
+    apply h1
+    simp only [Q.items, Bool.or_eq_true, List.isEmpty_iff, List.append_eq_nil_iff] at he
+    rcases he with h | h
+    · exact h.2
+    · exact h
+  · simp only [he]
+    exact h2 _ _ _ rfl
+
+theorem remove_elim {P : Q × Out → Prop} (q : Q) (pid : Nat)
+    (h1 : ∀ v done', extractFirst (fun x => x.id == pid) q.done = some (v, done') →
+      P ({ q with done := done' }, { evs := [.queued (-1), .inflight (-1)], acked := [v] }))
+    (h2 : P (q, { evs := [] })) :
+    P (step q (.remove pid)) := by
+  simp only [step, Q.remove]
+  rcases h : extractFirst (fun x => x.id == pid) q.done with _ | ⟨v, d⟩
+  · exact h2
+  · exact h1 v d h
+
+theorem replace_elim {P : Q × Out → Prop} (q : Q) (e : Elem)
+    (h1 : ∀ done', replaceFirst (fun x => x.id == e.id) e q.done = some done' →
+      P ({ q with done := done' }, { status := "replaced" }))
+    (h2 : ∀ s, P (q, { status := s })) :
+    P (step q (.replace e)) := by
+  simp only [step, Q.replace]
+  rcases h : replaceFirst (fun x => x.id == e.id) e q.done with _ | d
+  · exact h2 _
+  · exact h1 d h
+
+/-! ### tags / counting -/
+
+def droppedOf (evs : List Ev) : List Elem := evs.filterMap Ev.droppedElem
+
+@[simp] theorem tags_nil : tags [] = [] := rfl
+@[simp] theorem tags_cons (e : Elem) (l : List Elem) : tags (e :: l) = e.tag :: tags l := rfl
+@[simp] theorem tags_append (l₁ l₂ : List Elem) : tags (l₁ ++ l₂) = tags l₁ ++ tags l₂ := by
+  simp [tags]
+
+@[simp] theorem droppedOf_nil : droppedOf [] = [] := rfl
+@[simp] theorem droppedOf_dropped (e : Elem) (r : Reason) (evs : List Ev) :
+    droppedOf (.dropped e r :: evs) = e :: droppedOf evs := rfl
+@[simp] theorem droppedOf_queued (d : Int) (evs : List Ev) :
+    droppedOf (.queued d :: evs) = droppedOf evs := rfl
+@[simp] theorem droppedOf_inflight (d : Int) (evs : List Ev) :
+    droppedOf (.inflight d :: evs) = droppedOf evs := rfl
+@[simp] theorem droppedOf_append (l₁ l₂ : List Ev) :
+    droppedOf (l₁ ++ l₂) = droppedOf l₁ ++ droppedOf l₂ := by
+  simp [droppedOf]
+
+/-! ### facts about `readLoop` -/
+
+theorem readLoop_count (now ie limit n : Nat) (rest : List Elem) (pids : List Nat) (t : Nat) :
+    (tags rest).count t =
+      (tags (droppedOf (readLoop now ie limit n rest pids).evs)).count t +
+      (tags ((readLoop now ie limit n rest pids).out.filter (fun e => e.qos == 0))).count t +
+      (tags (readLoop now ie limit n rest pids).kept).count t +
+      (tags (readLoop now ie limit n rest pids).rest).count t := by
+  fun_induction readLoop now ie limit n rest pids with
+  | case1 => simp
+  | case2 => simp
+  | case3 n v rest pids h r ih => simp [List.count_cons, ih, r]; omega
+  | case4 n v rest pids h1 h2 r ih => simp [List.count_cons, ih, r]; omega
+  | case5 n v rest pids h1 h2 h3 r ih => simp [List.count_cons, ih, h3, r]; omega
+  | case6 => simp
+  | case7 n v rest h1 h2 h3 p pids' v' r ih => simp [List.count_cons, ih, h3, v', r]; omega
+
+/-! ### facts about `replaceFirst` and `inflightLoop` -/
+
+theorem replaceFirst_some {p : Elem → Bool} {e : Elem} {l l' : List Elem}
+    (h : replaceFirst p e l = some l') :
+    ∃ pre x post, l = pre ++ x :: post ∧ l' = pre ++ { e with tag := x.tag } :: post ∧ p x = true := by
+  induction l generalizing l' with
+  | nil => simp [replaceFirst] at h
+  | cons y ys ih =>
+    simp only [replaceFirst] at h
+    split at h
+    · next hp =>
+      simp only [Option.some.injEq] at h
+      exact ⟨[], y, ys, rfl, h.symm, hp⟩
+    · rcases hr : replaceFirst p e ys with _ | ys'
+      · simp [hr] at h
+      · simp only [hr, Option.some.injEq] at h
+        obtain ⟨pre, x, post, h1, h2, h3⟩ := ih hr
+        exact ⟨y :: pre, x, post, by simp [h1], by simp [← h, h2], h3⟩
+
+/-- the expiry refresh applied to replayed / handed out in-flight entries -/
+def refresh (now ie : Nat) (v : Elem) : Elem :=
+  { v with exp := if ie != 0 then some (now + ie) else v.exp }
+
+theorem inflightLoop_spec (now ie n : Nat) (rest : List Elem) :
+    ∃ pre, rest = pre ++ (inflightLoop now ie n rest).2.1 ∧
+      (inflightLoop now ie n rest).1 = pre.map (refresh now ie) ∧
+      (∀ e ∈ pre, e.id ≠ 0) ∧
+      ((inflightLoop now ie n rest).2.2 = true →
+        ∃ v t, (inflightLoop now ie n rest).2.1 = v :: t ∧ v.id = 0) := by
+  fun_induction inflightLoop now ie n rest with
+  | case1 rest => exact ⟨[], by simp⟩
+  | case2 => exact ⟨[], by simp⟩
+  | case3 n v rest hv v' out rest' d heq ih =>
+    obtain ⟨pre, h1, h2, h3, h4⟩ := ih
+    simp only [heq] at h1 h2 h4
+    refine ⟨v :: pre, by simp [← h1], by simp [h2, v', refresh], ?_, h4⟩
+    intro e he
+    rcases List.mem_cons.1 he with rfl | he
+    · simpa using hv
+    · exact h3 e he
+  | case4 n v rest hv => exact ⟨[], by simp, by simp, by simp, fun _ => ⟨v, rest, rfl, by simpa using hv⟩⟩
+
+@[simp] theorem tags_map_refresh (now ie : Nat) (l : List Elem) :
+    tags (l.map (refresh now ie)) = tags l := by
+  simp [tags, refresh, Function.comp_def]
+
+/-! ### 2. conservation -/
+
+@[simp] theorem Out.dropped_eq (o : Out) : o.dropped = droppedOf o.evs := rfl
+
+def Out.ledgerTags (o : Out) : List Nat := tags o.dropped ++ tags o.finished ++ tags o.cleared
+
+def addedTag : Op → List Nat
+  | .add _ e => [e.tag]
+  | _ => []
+
+theorem addedTags_cons (op : Op) (ops : List Op) : addedTags (op :: ops) = addedTag op ++ addedTags ops := by
+  cases op <;> rfl
+
+theorem step_count (q : Q) (op : Op) (t : Nat) :
+    (tags (step q op).1.items).count t + ((step q op).2.ledgerTags).count t =
+      (tags q.items).count t + (addedTag op).count t := by
+  cases op with
+  | add now e =>
+    apply add_elim (P := fun r => (tags r.1.items).count t + (r.2.ledgerTags).count t =
+      (tags q.items).count t + (addedTag (.add now e)).count t)
+    · intro _
+      simp [Q.items, Out.ledgerTags, Out.finished, addedTag, List.count_cons]
+      omega
+    · intro v done' _ hx
+      have := (extractFirst_some hx).2.1.map (·.tag) |>.count_eq t
+      simp [List.count_cons] at this
+      simp [Q.items, Out.ledgerTags, Out.finished, addedTag, List.count_cons, tags, ← this]
+      omega
+    · intro v r rest' p _ hx _
+      have := (extractFirst_some hx).2.1.map (·.tag) |>.count_eq t
+      simp [List.count_cons] at this
+      simp [Q.items, Out.ledgerTags, Out.finished, addedTag, List.count_cons, tags, ← this]
+      omega
+    · intro _
+      simp [Q.items, Out.ledgerTags, Out.finished, addedTag, List.count_cons]
+  | read now pids =>
+    apply read_elim (P := fun r => (tags r.1.items).count t + (r.2.ledgerTags).count t =
+      (tags q.items).count t + (addedTag (.read now pids)).count t)
+    · intro s
+      simp [Out.ledgerTags, Out.finished, addedTag]
+    · intro _ _
+      have := readLoop_count now q.ie q.limit (min pids.length q.items.length) q.rest pids t
+      simp [Q.items, Out.ledgerTags, Out.finished, addedTag, this]
+      omega
+  | readInflight now n =>
+    apply readInflight_elim (P := fun r => (tags r.1.items).count t + (r.2.ledgerTags).count t =
+      (tags q.items).count t + (addedTag (.readInflight now n)).count t)
+    · intro _
+      simp [Q.items, Out.ledgerTags, Out.finished, addedTag]
+    · intro out rest' d heq
+      obtain ⟨pre, h1, h2, _, _⟩ := inflightLoop_spec now q.ie (min n q.items.length) q.rest
+      simp only [heq] at h1 h2
+      simp [Q.items, Out.ledgerTags, Out.finished, addedTag, h2]
+      rw [h1]
+      simp
+  | remove pid =>
+    apply remove_elim (P := fun r => (tags r.1.items).count t + (r.2.ledgerTags).count t =
+      (tags q.items).count t + (addedTag (.remove pid)).count t)
+    · intro v done' hx
+      have := (extractFirst_some hx).2.1.map (·.tag) |>.count_eq t
+      simp [List.count_cons] at this
+      simp [Q.items, Out.ledgerTags, Out.finished, addedTag, List.count_cons, tags, ← this]
+      omega
+    · simp [Out.ledgerTags, Out.finished, addedTag]
+  | replace e =>
+    apply replace_elim (P := fun r => (tags r.1.items).count t + (r.2.ledgerTags).count t =
+      (tags q.items).count t + (addedTag (.replace e)).count t)
+    · intro done' hx
+      obtain ⟨pre, x, post, h1, h2, _⟩ := replaceFirst_some hx
+      simp [Q.items, Out.ledgerTags, Out.finished, addedTag, h1, h2]
+    · intro s
+      simp [Out.ledgerTags, Out.finished, addedTag]
+  | init clean limit =>
+    cases clean <;> simp [step, Q.init, Q.items, Out.ledgerTags, Out.finished, addedTag]
+  | close =>
+    simp [step, Q.close, Q.items, Out.ledgerTags, Out.finished, addedTag]
+
+theorem ledger_cons (o : Out) (os : List Out) : ledger (o :: os) = o.ledgerTags ++ ledger os := by
+  simp [ledger, Out.ledgerTags]
+
+theorem run_cons (q : Q) (op : Op) (ops : List Op) :
+    run q (op :: ops) = ((run (step q op).1 ops).1, (step q op).2 :: (run (step q op).1 ops).2) := rfl
+
+theorem run_count (q : Q) (ops : List Op) (t : Nat) :
+    (tags (run q ops).1.items).count t + (ledger (run q ops).2).count t =
+      (tags q.items).count t + (addedTags ops).count t := by
+  induction ops generalizing q with
+  | nil => simp [run, ledger, addedTags]
+  | cons op ops ih =>
+    rw [run_cons, ledger_cons, addedTags_cons]
+    have h1 := ih (step q op).1
+    have h2 := step_count q op t
+    simp only [List.count_append] at *
+    omega
+
+theorem run_conservation (q : Q) (ops : List Op) :
+    List.Perm (tags (run q ops).1.items ++ ledger (run q ops).2) (tags q.items ++ addedTags ops) := by
+  rw [List.perm_iff_count]
+  intro t
+  simpa [List.count_append] using run_count q ops t
+
+theorem run_exactly_one (max ie : Nat) (ops : List Op) (hnd : (addedTags ops).Nodup) (t : Nat)
+    (ht : t ∈ addedTags ops) :
+    (tags (run (new max ie) ops).1.items ++ ledger (run (new max ie) ops).2).count t = 1 := by
+  rw [(run_conservation (new max ie) ops).count_eq t]
+  simp [new, Q.items, hnd.count, ht]
+
+/-! ### 1. length bound -/
+
+theorem readLoop_len (now ie limit n : Nat) (rest : List Elem) (pids : List Nat) :
+    (readLoop now ie limit n rest pids).kept.length + (readLoop now ie limit n rest pids).rest.length
+        ≤ rest.length ∧
+    (readLoop now ie limit n rest pids).qd =
+      ((readLoop now ie limit n rest pids).kept.length + (readLoop now ie limit n rest pids).rest.length : Int)
+        - rest.length ∧
+    (readLoop now ie limit n rest pids).ind = (readLoop now ie limit n rest pids).kept.length := by
+  fun_induction readLoop now ie limit n rest pids with
+  | case1 => simp
+  | case2 => simp
+  | case3 n v rest pids h r ih => simp [r] at *; omega
+  | case4 n v rest pids h1 h2 r ih => simp [r] at *; omega
+  | case5 n v rest pids h1 h2 h3 r ih => simp [r] at *; omega
+  | case6 => simp
+  | case7 n v rest h1 h2 h3 p pids' v' r ih => simp [r] at *; omega
+
+theorem step_max (q : Q) (op : Op) : (step q op).1.max = q.max := by
+  cases op with
+  | add now e => apply add_elim (P := fun r => r.1.max = q.max) <;> intros <;> rfl
+  | read now pids => apply read_elim (P := fun r => r.1.max = q.max) <;> intros <;> rfl
+  | readInflight now n => apply readInflight_elim (P := fun r => r.1.max = q.max) <;> intros <;> rfl
+  | remove pid => apply remove_elim (P := fun r => r.1.max = q.max) <;> intros <;> rfl
+  | replace e => apply replace_elim (P := fun r => r.1.max = q.max) <;> intros <;> rfl
+  | init clean limit => rfl
+  | close => rfl
+
+theorem step_len (q : Q) (op : Op) (h : q.items.length ≤ q.max) :
+    (step q op).1.items.length ≤ q.max := by
+  cases op with
+  | add now e =>
+    apply add_elim (P := fun r => r.1.items.length ≤ q.max)
+    · intro h1; simp [Q.items] at *; omega
+    · intro v done' _ hx
+      have := extractFirst_length hx
+      simp [Q.items] at *; omega
+    · intro v r rest' p _ hx _
+      have := extractFirst_length hx
+      simp [Q.items] at *; omega
+    · intro _; exact h
+  | read now pids =>
+    apply read_elim (P := fun r => r.1.items.length ≤ q.max)
+    · intro _; exact h
+    · intro _ _
+      have := (readLoop_len now q.ie q.limit (min pids.length q.items.length) q.rest pids).1
+      simp [Q.items] at *; omega
+  | readInflight now n =>
+    apply readInflight_elim (P := fun r => r.1.items.length ≤ q.max)
+    · intro _; exact h
+    · intro out rest' d heq
+      obtain ⟨pre, h1, h2, _, _⟩ := inflightLoop_spec now q.ie (min n q.items.length) q.rest
+      simp only [heq] at h1 h2
+      have h3 := congrArg List.length h1
+      simp [Q.items, h2] at *; omega
+  | remove pid =>
+    apply remove_elim (P := fun r => r.1.items.length ≤ q.max)
+    · intro v done' hx
+      have := extractFirst_length hx
+      simp [Q.items] at *; omega
+    · exact h
+  | replace e =>
+    apply replace_elim (P := fun r => r.1.items.length ≤ q.max)
+    · intro done' hx
+      obtain ⟨pre, x, post, h1, h2, _⟩ := replaceFirst_some hx
+      simp [Q.items, h1, h2] at *; omega
+    · intro _; exact h
+  | init clean limit =>
+    cases clean <;> simp [step, Q.init, Q.items] at * <;> omega
+  | close => exact h
 
 theorem run_len_le_max (q : Q) (ops : List Op) (h : q.items.length ≤ q.max) (hmax : 0 < q.max) :
     (run q ops).1.items.length ≤ q.max := by
-  sorry
+  induction ops generalizing q with
+  | nil => exact h
+  | cons op ops ih =>
+    rw [run_cons]
+    have := ih (step q op).1 (by rw [step_max]; exact step_len q op h) (by rw [step_max]; exact hmax)
+    rw [step_max] at this
+    exact this
+
+/-! ### the reachable-state invariant -/
+
+theorem isQueued_iff (e : Elem) : isQueued e = true ↔ e.pub = true ∧ e.id = 0 := by
+  simp [isQueued]
+
+/-- entries carrying a packet id come first; everything after the first entry without id is a queued PUBLISH -/
+def Shape (l : List Elem) : Prop :=
+  (∀ x ∈ l, x.id = 0 → x.pub = true) ∧ l.Pairwise (fun x y => x.id = 0 → y.id = 0)
+
+def Inv (q : Q) : Prop :=
+  (∀ e ∈ q.done, e.id ≠ 0) ∧ Shape q.rest ∧ (q.drained = true → ∀ e ∈ q.rest, isQueued e = true)
+
+theorem Shape.sublist {l l' : List Elem} (hs : l'.Sublist l) (h : Shape l) : Shape l' :=
+  ⟨fun x hx => h.1 x (hs.subset hx), h.2.sublist hs⟩
+
+theorem Shape.of_queued {l : List Elem} (h : ∀ e ∈ l, isQueued e = true) : Shape l :=
+  ⟨fun x hx _ => ((isQueued_iff x).1 (h x hx)).1,
+   List.pairwise_of_forall_mem_list (fun _ _ b hb _ => ((isQueued_iff b).1 (h b hb)).2)⟩
+
+theorem Shape.snoc {l : List Elem} {e : Elem} (h : Shape l) (he : isQueued e = true) : Shape (l ++ [e]) := by
+  have he' := (isQueued_iff e).1 he
+  refine ⟨?_, ?_⟩
+  · intro x hx h0
+    rcases List.mem_append.1 hx with hx | hx
+    · exact h.1 x hx h0
+    · simp at hx; subst hx; exact he'.1
+  · rw [List.pairwise_append]
+    refine ⟨h.2, by simp, ?_⟩
+    intro a _ b hb _
+    simp at hb; subst hb; exact he'.2
+
+theorem Shape.prepend {d l : List Elem} (hd : ∀ e ∈ d, e.id ≠ 0) (h : Shape l) : Shape (d ++ l) := by
+  refine ⟨?_, ?_⟩
+  · intro x hx h0
+    rcases List.mem_append.1 hx with hx | hx
+    · exact absurd h0 (hd x hx)
+    · exact h.1 x hx h0
+  · rw [List.pairwise_append]
+    refine ⟨List.pairwise_of_forall_mem_list (fun a ha _ _ h0 => absurd h0 (hd a ha)), h.2, ?_⟩
+    intro a ha _ _ h0
+    exact absurd h0 (hd a ha)
+
+theorem Shape.head_zero {v : Elem} {t : List Elem} (h : Shape (v :: t)) (hv : v.id = 0) :
+    ∀ e ∈ v :: t, isQueued e = true := by
+  have hall : ∀ e ∈ v :: t, e.id = 0 := by
+    intro e he
+    rcases List.mem_cons.1 he with rfl | he
+    · exact hv
+    · exact (List.pairwise_cons.1 h.2).1 e he hv
+  intro e he
+  exact (isQueued_iff e).2 ⟨h.1 e he (hall e he), hall e he⟩
+
+theorem readLoop_suffix (now ie limit n : Nat) (rest : List Elem) (pids : List Nat) :
+    (readLoop now ie limit n rest pids).rest <:+ rest := by
+  fun_induction readLoop now ie limit n rest pids with
+  | case1 => simp
+  | case2 => simp
+  | case3 n v rest pids h r ih => exact ih.trans (List.suffix_cons _ _)
+  | case4 n v rest pids h1 h2 r ih => exact ih.trans (List.suffix_cons _ _)
+  | case5 n v rest pids h1 h2 h3 r ih => exact ih.trans (List.suffix_cons _ _)
+  | case6 => simp
+  | case7 n v rest h1 h2 h3 p pids' v' r ih => exact ih.trans (List.suffix_cons _ _)
+
+theorem readLoop_kept_ids (now ie limit n : Nat) (rest : List Elem) (pids : List Nat) :
+    ∀ e ∈ (readLoop now ie limit n rest pids).kept, e.id ∈ pids := by
+  fun_induction readLoop now ie limit n rest pids with
+  | case1 => simp
+  | case2 => simp
+  | case3 n v rest pids h r ih => exact ih
+  | case4 n v rest pids h1 h2 r ih => exact ih
+  | case5 n v rest pids h1 h2 h3 r ih => exact ih
+  | case6 => simp
+  | case7 n v rest h1 h2 h3 p pids' v' r ih =>
+    intro e he
+    rcases List.mem_cons.1 he with rfl | he
+    · simp [v']
+    · exact List.mem_cons_of_mem _ (ih e he)
+
+theorem inv_new (max ie : Nat) : Inv (new max ie) := by
+  simp [Inv, new, Shape]
+
+theorem step_inv (q : Q) (op : Op) (hwf : WFOp op) (h : Inv q) : Inv (step q op).1 := by
+  obtain ⟨hd, hs, hq⟩ := h
+  cases op with
+  | add now e =>
+    have he : isQueued e = true := (isQueued_iff e).2 hwf
+    apply add_elim (P := fun r => Inv r.1)
+    · intro _
+      refine ⟨hd, hs.snoc he, fun hdr x hx => ?_⟩
+      rcases List.mem_append.1 hx with hx | hx
+      · exact hq hdr x hx
+      · simp at hx; subst hx; exact he
+    · intro v done' _ hx
+      refine ⟨fun x hx' => hd x ((extractFirst_some hx).2.2.subset hx'), hs.snoc he, fun hdr x hx => ?_⟩
+      rcases List.mem_append.1 hx with hx | hx
+      · exact hq hdr x hx
+      · simp at hx; subst hx; exact he
+    · intro v r rest' p _ hx _
+      have hsub := (extractFirst_some hx).2.2
+      refine ⟨hd, (hs.sublist hsub).snoc he, fun hdr x hx => ?_⟩
+      rcases List.mem_append.1 hx with hx | hx
+      · exact hq hdr x (hsub.subset hx)
+      · simp at hx; subst hx; exact he
+    · intro _; exact ⟨hd, hs, hq⟩
+  | read now pids =>
+    apply read_elim (P := fun r => Inv r.1)
+    · intro _; exact ⟨hd, hs, hq⟩
+    · intro hdr _
+      have hsuf := readLoop_suffix now q.ie q.limit (min pids.length q.items.length) q.rest pids
+      have hk := readLoop_kept_ids now q.ie q.limit (min pids.length q.items.length) q.rest pids
+      refine ⟨?_, hs.sublist hsuf.sublist, fun _ x hx => hq hdr x (hsuf.subset hx)⟩
+      intro x hx
+      rcases List.mem_append.1 hx with hx | hx
+      · exact hd x hx
+      · exact hwf _ (hk x hx)
+  | readInflight now n =>
+    apply readInflight_elim (P := fun r => Inv r.1)
+    · intro hr
+      exact ⟨hd, hs, fun _ x hx => by simp [hr] at hx⟩
+    · intro out rest' d heq
+      obtain ⟨pre, h1, h2, h3, h4⟩ := inflightLoop_spec now q.ie (min n q.items.length) q.rest
+      simp only [heq] at h1 h2 h4
+      have hsuf : rest' <:+ q.rest := ⟨pre, h1.symm⟩
+      have hs' : Shape rest' := hs.sublist hsuf.sublist
+      refine ⟨?_, hs', ?_⟩
+      · intro x hx
+        rcases List.mem_append.1 hx with hx | hx
+        · exact hd x hx
+        · rw [h2] at hx
+          obtain ⟨y, hy, rfl⟩ := List.mem_map.1 hx
+          exact h3 y hy
+      · intro hdr x hx
+        simp only [Bool.or_eq_true] at hdr
+        rcases hdr with hdr | hdr
+        · exact hq hdr x (hsuf.subset hx)
+        · obtain ⟨v, t, hvt, hv0⟩ := h4 hdr
+          rw [hvt] at hs' hx
+          exact hs'.head_zero hv0 x hx
+  | remove pid =>
+    apply remove_elim (P := fun r => Inv r.1)
+    · intro v done' hx
+      exact ⟨fun x hx' => hd x ((extractFirst_some hx).2.2.subset hx'), hs, hq⟩
+    · exact ⟨hd, hs, hq⟩
+  | replace e =>
+    apply replace_elim (P := fun r => Inv r.1)
+    · intro done' hx
+      obtain ⟨pre, x, post, h1, h2, h3⟩ := replaceFirst_some hx
+      refine ⟨?_, hs, hq⟩
+      intro y hy
+      rw [h2] at hy
+      rw [h1] at hd
+      simp only [List.mem_append, List.mem_cons] at hy hd
+      rcases hy with hy | rfl | hy
+      · exact hd y (.inl hy)
+      · have := hd x (.inr (.inl rfl))
+        simp at h3
+        simpa [← h3] using this
+      · exact hd y (.inr (.inr hy))
+    · intro _; exact ⟨hd, hs, hq⟩
+  | init clean limit =>
+    cases clean
+    · refine ⟨by simp [step, Q.init], ?_, by simp [step, Q.init]⟩
+      exact Shape.prepend hd hs
+    · simp [step, Q.init, Inv, Shape]
+  | close => exact ⟨hd, hs, hq⟩
+
+theorem run_inv (q : Q) (ops : List Op) (hwf : ∀ op ∈ ops, WFOp op) (h : Inv q) : Inv (run q ops).1 := by
+  induction ops generalizing q with
+  | nil => exact h
+  | cons op ops ih =>
+    rw [run_cons]
+    exact ih _ (fun o ho => hwf o (List.mem_cons_of_mem _ ho)) (step_inv q op (hwf op List.mem_cons_self) h)
+
+/-! ### 5. `Read` never returns expired / oversize messages -/
+
+theorem readLoop_sound (now ie limit n : Nat) (rest : List Elem) (pids : List Nat) :
+    ∀ e ∈ (readLoop now ie limit n rest pids).out,
+      ∃ v ∈ rest, v.tag = e.tag ∧ v.size = e.size ∧ expired now v = false ∧ e.size ≤ limit := by
+  fun_induction readLoop now ie limit n rest pids with
+  | case1 => simp
+  | case2 => simp
+  | case3 n v rest pids h r ih =>
+    intro e he
+    obtain ⟨w, hw, hh⟩ := ih e he
+    exact ⟨w, List.mem_cons_of_mem _ hw, hh⟩
+  | case4 n v rest pids h1 h2 r ih =>
+    intro e he
+    obtain ⟨w, hw, hh⟩ := ih e he
+    exact ⟨w, List.mem_cons_of_mem _ hw, hh⟩
+  | case5 n v rest pids h1 h2 h3 r ih =>
+    intro e he
+    rcases List.mem_cons.1 he with rfl | he
+    · exact ⟨e, List.mem_cons_self, rfl, rfl, by simpa using h1, by omega⟩
+    · obtain ⟨w, hw, hh⟩ := ih e he
+      exact ⟨w, List.mem_cons_of_mem _ hw, hh⟩
+  | case6 => simp
+  | case7 n v rest h1 h2 h3 p pids' v' r ih =>
+    intro e he
+    rcases List.mem_cons.1 he with rfl | he
+    · exact ⟨v, List.mem_cons_self, rfl, rfl, by simpa using h1, by simp [v']; omega⟩
+    · obtain ⟨w, hw, hh⟩ := ih e he
+      exact ⟨w, List.mem_cons_of_mem _ hw, hh⟩
+
+theorem read_ok {q q' : Q} {now : Nat} {pids : List Nat} {out : List Elem} {evs : List Ev}
+    (h : q.read now pids = (q', .ok out evs)) :
+    q.drained = true ∧ q.closed = false ∧
+      out = (readLoop now q.ie q.limit (min pids.length q.items.length) q.rest pids).out := by
+  rcases read_cases q now pids with h' | h' | h' | ⟨hd, hc, h'⟩
+  · rw [h'] at h; simp at h
+  · rw [h'] at h; simp at h
+  · rw [h'] at h; simp at h
+  · rw [h'] at h
+    simp only [Prod.mk.injEq, ReadRes.ok.injEq] at h
+    exact ⟨hd, hc, h.2.1.symm⟩
+
+theorem read_ok_sound (q : Q) (now : Nat) (pids : List Nat) (out : List Elem)
+    (evs : List Ev) (q' : Q) (h : q.read now pids = (q', .ok out evs)) :
+    ∀ e ∈ out, ∃ v ∈ q.rest, v.tag = e.tag ∧ v.size = e.size ∧ expired now v = false ∧ e.size ≤ q.limit := by
+  obtain ⟨_, _, rfl⟩ := read_ok h
+  exact readLoop_sound _ _ _ _ _ _
+
+/-! ### 4. packet ids -/
+
+theorem readLoop_ids (now ie limit n : Nat) (rest : List Elem) (pids : List Nat)
+    (h0 : ∀ e ∈ rest, e.id = 0) :
+    (((readLoop now ie limit n rest pids).out.filter (fun e => e.qos != 0)).map (·.id)) =
+        pids.take ((readLoop now ie limit n rest pids).out.filter (fun e => e.qos != 0)).length
+    ∧ ∀ e ∈ (readLoop now ie limit n rest pids).out, e.qos = 0 → e.id = 0 := by
+  fun_induction readLoop now ie limit n rest pids with
+  | case1 => simp
+  | case2 => simp
+  | case3 n v rest pids h r ih => exact ih (fun e he => h0 e (List.mem_cons_of_mem _ he))
+  | case4 n v rest pids h1 h2 r ih => exact ih (fun e he => h0 e (List.mem_cons_of_mem _ he))
+  | case5 n v rest pids h1 h2 h3 r ih =>
+    have ih := ih (fun e he => h0 e (List.mem_cons_of_mem _ he))
+    have hv := h0 v List.mem_cons_self
+    simp only [beq_iff_eq] at h3
+    refine ⟨by simpa [h3] using ih.1, ?_⟩
+    intro e he hq
+    rcases List.mem_cons.1 he with rfl | he
+    · exact hv
+    · exact ih.2 e he hq
+  | case6 => simp
+  | case7 n v rest h1 h2 h3 p pids' v' r ih =>
+    have ih := ih (fun e he => h0 e (List.mem_cons_of_mem _ he))
+    simp only [beq_iff_eq] at h3
+    have hq' : (v'.qos != 0) = true := by simpa [v'] using h3
+    refine ⟨?_, ?_⟩
+    · simp only [List.filter_cons, hq', if_true, List.map_cons, List.length_cons, List.take_succ_cons]
+      rw [← ih.1]
+    · intro e he hq
+      rcases List.mem_cons.1 he with rfl | he
+      · simp [v'] at hq; exact absurd hq h3
+      · exact ih.2 e he hq
+
+theorem reachable_read_ids (max ie : Nat) (ops : List Op) (hwf : ∀ op ∈ ops, WFOp op)
+    (now : Nat) (pids : List Nat) (out : List Elem) (evs : List Ev) (q' : Q)
+    (h : (run (new max ie) ops).1.read now pids = (q', .ok out evs)) :
+    ((out.filter (fun e => e.qos != 0)).map (·.id)) = pids.take (out.filter (fun e => e.qos != 0)).length
+    ∧ ∀ e ∈ out, e.qos = 0 → e.id = 0 := by
+  obtain ⟨_, _, hq⟩ := run_inv (new max ie) ops hwf (inv_new max ie)
+  obtain ⟨hd, _, rfl⟩ := read_ok h
+  exact readLoop_ids _ _ _ _ _ _ (fun e he => ((isQueued_iff e).1 (hq hd e he)).2)
+
+/-! ### 3. FIFO -/
+
+theorem readLoop_sublist (now ie limit n : Nat) (rest : List Elem) (pids : List Nat) :
+    List.Sublist (tags (readLoop now ie limit n rest pids).out ++ tags (readLoop now ie limit n rest pids).rest)
+      (tags rest) := by
+  fun_induction readLoop now ie limit n rest pids with
+  | case1 => simp
+  | case2 => simp
+  | case3 n v rest pids h r ih => exact ih.cons _
+  | case4 n v rest pids h1 h2 r ih => exact ih.cons _
+  | case5 n v rest pids h1 h2 h3 r ih => exact ih.cons_cons _
+  | case6 => simp
+  | case7 n v rest h1 h2 h3 p pids' v' r ih => exact ih.cons_cons _
+
+theorem tags_sublist {l l' : List Elem} (h : l'.Sublist l) : (tags l').Sublist (tags l) := h.map _
+
+def Out.handed (o : Out) : List Nat := if o.replay then [] else tags o.returned
+
+theorem handedOut_cons (o : Out) (os : List Out) : handedOut (o :: os) = o.handed ++ handedOut os := by
+  simp [handedOut, Out.handed]
+
+theorem filter_queued_of_all {l : List Elem} (h : ∀ e ∈ l, isQueued e = true) : l.filter isQueued = l :=
+  List.filter_eq_self.2 h
+
+theorem filter_queued_done {l : List Elem} (h : ∀ e ∈ l, e.id ≠ 0) : l.filter isQueued = [] := by
+  rw [List.filter_eq_nil_iff]
+  intro e he hq
+  exact h e he ((isQueued_iff e).1 hq).2
+
+theorem unread_snoc (l : List Elem) (e : Elem) (he : isQueued e = true) :
+    tags ((l ++ [e]).filter isQueued) = tags (l.filter isQueued) ++ [e.tag] := by
+  simp [List.filter_append, he]
+
+theorem step_fifo (q : Q) (op : Op) (hwf : WFOp op) (h : Inv q) :
+    List.Sublist ((step q op).2.handed ++ unread (step q op).1) (unread q ++ addedTag op) := by
+  obtain ⟨hd, hs, hq⟩ := h
+  cases op with
+  | add now e =>
+    have he : isQueued e = true := (isQueued_iff e).2 hwf
+    apply add_elim (P := fun r => List.Sublist (r.2.handed ++ unread r.1) (unread q ++ addedTag (.add now e)))
+    · intro _
+      simp only [Out.handed, unread, addedTag, unread_snoc _ e he]
+      simp
+    · intro v done' _ hx
+      simp only [Out.handed, unread, addedTag, unread_snoc _ e he]
+      simp
+    · intro v r rest' p _ hx _
+      have hsub := (extractFirst_some hx).2.2
+      simp only [Out.handed, unread, addedTag, unread_snoc _ e he]
+      simpa using (tags_sublist (hsub.filter isQueued)).append (List.Sublist.refl [e.tag])
+    · intro _
+      simp [Out.handed, addedTag]
+  | read now pids =>
+    apply read_elim (P := fun r => List.Sublist (r.2.handed ++ unread r.1) (unread q ++ addedTag (.read now pids)))
+    · intro _
+      simp [Out.handed, addedTag]
+    · intro hdr _
+      have hsuf := readLoop_suffix now q.ie q.limit (min pids.length q.items.length) q.rest pids
+      have hsl := readLoop_sublist now q.ie q.limit (min pids.length q.items.length) q.rest pids
+      have h1 := filter_queued_of_all (hq hdr)
+      have h2 := filter_queued_of_all (fun x hx => hq hdr x (hsuf.subset hx))
+      simp only [Out.handed, unread, addedTag, h1, h2]
+      simpa using hsl
+  | readInflight now n =>
+    apply readInflight_elim
+      (P := fun r => List.Sublist (r.2.handed ++ unread r.1) (unread q ++ addedTag (.readInflight now n)))
+    · intro _
+      simp [Out.handed, addedTag, unread]
+    · intro out rest' d heq
+      obtain ⟨pre, h1, _, _, _⟩ := inflightLoop_spec now q.ie (min n q.items.length) q.rest
+      simp only [heq] at h1
+      have hsuf : rest' <:+ q.rest := ⟨pre, h1.symm⟩
+      simpa [Out.handed, addedTag, unread] using tags_sublist (hsuf.sublist.filter isQueued)
+  | remove pid =>
+    apply remove_elim (P := fun r => List.Sublist (r.2.handed ++ unread r.1) (unread q ++ addedTag (.remove pid)))
+    · intro v done' hx
+      simp [Out.handed, addedTag, unread]
+    · simp [Out.handed, addedTag]
+  | replace e =>
+    apply replace_elim (P := fun r => List.Sublist (r.2.handed ++ unread r.1) (unread q ++ addedTag (.replace e)))
+    · intro done' hx
+      simp [Out.handed, addedTag, unread]
+    · intro _
+      simp [Out.handed, addedTag]
+  | init clean limit =>
+    cases clean
+    · simp [step, Q.init, Out.handed, addedTag, unread, Q.items, List.filter_append, filter_queued_done hd]
+    · simp [step, Q.init, Out.handed, addedTag, unread]
+  | close => simp [step, Q.close, Out.handed, addedTag, unread]
+
+theorem run_fifo_gen (q : Q) (ops : List Op) (hwf : ∀ op ∈ ops, WFOp op) (h : Inv q)
+    (h0 a0 : List Nat) (hsub : List.Sublist (h0 ++ unread q) a0) :
+    List.Sublist (h0 ++ handedOut (run q ops).2 ++ unread (run q ops).1) (a0 ++ addedTags ops) := by
+  induction ops generalizing q h0 a0 with
+  | nil => simpa [run, handedOut, addedTags] using hsub
+  | cons op ops ih =>
+    rw [run_cons, handedOut_cons, addedTags_cons]
+    have hop := hwf op List.mem_cons_self
+    have hstep := step_fifo q op hop h
+    have := ih (step q op).1 (fun o ho => hwf o (List.mem_cons_of_mem _ ho)) (step_inv q op hop h)
+      (h0 ++ (step q op).2.handed) (a0 ++ addedTag op) (by
+        have h1 : List.Sublist (h0 ++ ((step q op).2.handed ++ unread (step q op).1))
+            (h0 ++ (unread q ++ addedTag op)) := (List.Sublist.refl h0).append hstep
+        have h2 : List.Sublist (h0 ++ unread q ++ addedTag op) (a0 ++ addedTag op) :=
+          hsub.append (List.Sublist.refl _)
+        simpa [List.append_assoc] using h1.trans (by simpa [List.append_assoc] using h2))
+    simpa [List.append_assoc] using this
+
+theorem run_fifo (max ie : Nat) (ops : List Op) (hwf : ∀ op ∈ ops, WFOp op) :
+    List.Sublist (handedOut (run (new max ie) ops).2 ++ unread (run (new max ie) ops).1) (addedTags ops) := by
+  simpa using run_fifo_gen (new max ie) ops hwf (inv_new max ie) [] [] (by simp [unread, new])
+
+/-! ### 6. replay -/
+
+/-- the in-flight entries still to be replayed: the leading run of entries that carry a packet id -/
+def pending (l : List Elem) : List Elem := l.takeWhile (fun e => e.id != 0)
+
+theorem Shape.filter_eq_pending {l : List Elem} (h : Shape l) :
+    l.filter (fun e => e.id != 0) = pending l := by
+  induction l with
+  | nil => rfl
+  | cons x xs ih =>
+    have hxs : Shape xs := h.sublist (List.sublist_cons_self _ _)
+    by_cases hx : x.id = 0
+    · have hall : ∀ e ∈ xs, e.id = 0 := fun e he => (List.pairwise_cons.1 h.2).1 e he hx
+      have : xs.filter (fun e => e.id != 0) = [] := by
+        rw [List.filter_eq_nil_iff]
+        intro e he
+        simp [hall e he]
+      simp [pending, hx, this]
+    · have := ih hxs
+      simp [pending, hx] at this ⊢
+      exact this
+
+@[simp] theorem key_refresh (now ie : Nat) (a : Elem) : key (refresh now ie a) = key a := rfl
+
+@[simp] theorem map_key_refresh (now ie : Nat) (l : List Elem) :
+    (l.map (refresh now ie)).map key = l.map key := by
+  simp [key, refresh, Function.comp_def]
+
+theorem readInflight_replay (q : Q) (now n : Nat) (hP : q.drained = true → pending q.rest = []) :
+    (q.readInflight now n).2.map key ++ (pending (q.readInflight now n).1.rest).map key
+        = (pending q.rest).map key
+    ∧ ((q.readInflight now n).1.drained = true → pending (q.readInflight now n).1.rest = []) := by
+  unfold Q.readInflight
+  split
+  · next he =>
+    have hr : q.rest = [] := by
+      simp only [Q.items, Bool.or_eq_true, List.isEmpty_iff, List.append_eq_nil_iff] at he
+      rcases he with h | h
+      · exact h.2
+      · exact h
+    simp [hr, pending]
+  · obtain ⟨pre, h1, h2, h3, h4⟩ := inflightLoop_spec now q.ie (min n q.items.length) q.rest
+    rcases hl : inflightLoop now q.ie (min n q.items.length) q.rest with ⟨out, rest', d⟩
+    simp only [hl] at h1 h2 h4 ⊢
+    have hpend : pending q.rest = pre ++ pending rest' := by
+      rw [h1]
+      exact List.takeWhile_append_of_pos (fun a ha => by simpa using h3 a ha)
+    refine ⟨by simp [h2, hpend], ?_⟩
+    intro hdr
+    simp only [Bool.or_eq_true] at hdr
+    rcases hdr with hdr | hdr
+    · have := hP hdr
+      rw [hpend] at this
+      exact (List.append_eq_nil_iff.1 this).2
+    · obtain ⟨v, t, hvt, hv0⟩ := h4 hdr
+      simp [hvt, pending, hv0]
+
+theorem runReplay_cons (q : Q) (now n : Nat) (cs : List (Nat × Nat)) :
+    runReplay q ((now, n) :: cs) =
+      ((runReplay (q.readInflight now n).1 cs).1,
+       (q.readInflight now n).2 ++ (runReplay (q.readInflight now n).1 cs).2) := rfl
+
+theorem runReplay_spec (q : Q) (calls : List (Nat × Nat)) (hP : q.drained = true → pending q.rest = []) :
+    (runReplay q calls).2.map key ++ (pending (runReplay q calls).1.rest).map key = (pending q.rest).map key
+    ∧ ((runReplay q calls).1.drained = true → pending (runReplay q calls).1.rest = []) := by
+  induction calls generalizing q with
+  | nil => exact ⟨by simp [runReplay], hP⟩
+  | cons c cs ih =>
+    obtain ⟨now, n⟩ := c
+    rw [runReplay_cons]
+    obtain ⟨h1, h2⟩ := readInflight_replay q now n hP
+    obtain ⟨h3, h4⟩ := ih (q.readInflight now n).1 h2
+    refine ⟨?_, h4⟩
+    simp only [List.map_append, List.append_assoc]
+    rw [h3, h1]
+
+theorem read_not_drained (q : Q) (h : q.drained = false) (now : Nat) (pids : List Nat) :
+    (q.read now pids).2 = .panic := by
+  simp [Q.read, h]
+
+theorem reachable_replay (max ie : Nat) (ops : List Op) (hwf : ∀ op ∈ ops, WFOp op)
+    (limit : Nat) (calls : List (Nat × Nat)) :
+    let q := (run (new max ie) ops).1
+    let inflight := q.items.filter (fun e => e.id != 0)
+    let r := runReplay (q.init false limit) calls
+    (r.2.map key).IsPrefix (inflight.map key)
+    ∧ (r.1.drained = true → r.2.map key = inflight.map key)
+    ∧ (r.1.drained = false → ∀ now pids, (r.1.read now pids).2 = .panic) := by
+  intro q inflight r
+  have hinv : Inv q := run_inv (new max ie) ops hwf (inv_new max ie)
+  have hinv' : Inv (q.init false limit) := step_inv q (.init false limit) trivial hinv
+  have hinfl : inflight = pending (q.init false limit).rest := by
+    have := hinv'.2.1.filter_eq_pending
+    simpa [Q.init] using this
+  obtain ⟨h1, h2⟩ := runReplay_spec (q.init false limit) calls (by simp [Q.init])
+  rw [hinfl]
+  refine ⟨?_, ?_, fun hd now pids => read_not_drained _ hd now pids⟩
+  · rw [← h1]
+    exact List.prefix_append _ _
+  · intro hd
+    have := h2 hd
+    rw [← h1]
+    show List.map key (runReplay (q.init false limit) calls).2 = _
+    rw [this]
+    simp
+
+/-! ### 8. counters -/
+
+/-- number of entries carrying a packet id -/
+def nz (l : List Elem) : Nat := (l.filter (fun e => e.id != 0)).length
+
+@[simp] theorem nz_nil : nz [] = 0 := rfl
+@[simp] theorem nz_cons (e : Elem) (l : List Elem) : nz (e :: l) = (if e.id = 0 then 0 else 1) + nz l := by
+  by_cases h : e.id = 0 <;> simp [nz, h] <;> omega
+@[simp] theorem nz_append (l₁ l₂ : List Elem) : nz (l₁ ++ l₂) = nz l₁ + nz l₂ := by
+  simp [nz]
+
+theorem nz_of_all_nz {l : List Elem} (h : ∀ e ∈ l, e.id ≠ 0) : nz l = l.length := by
+  induction l with
+  | nil => rfl
+  | cons x xs ih =>
+    have := ih (fun e he => h e (List.mem_cons_of_mem _ he))
+    have hx := h x List.mem_cons_self
+    simp [hx, this]; omega
+
+theorem nz_of_all_zero {l : List Elem} (h : ∀ e ∈ l, e.id = 0) : nz l = 0 := by
+  induction l with
+  | nil => rfl
+  | cons x xs ih =>
+    have := ih (fun e he => h e (List.mem_cons_of_mem _ he))
+    have hx := h x List.mem_cons_self
+    simp [hx, this]
+
+theorem nz_perm {l₁ l₂ : List Elem} (h : l₁.Perm l₂) : nz l₁ = nz l₂ :=
+  (h.filter _).length_eq
+
+theorem nz_map_refresh (now ie : Nat) (l : List Elem) : nz (l.map (refresh now ie)) = nz l := by
+  induction l with
+  | nil => rfl
+  | cons x xs ih => simp [ih, refresh]
+
+theorem evDeltas_readLoop (now ie limit n : Nat) (rest : List Elem) (pids : List Nat) (l : List Ev) :
+    evDeltas ((readLoop now ie limit n rest pids).evs ++ l) = evDeltas l := by
+  fun_induction readLoop now ie limit n rest pids with
+  | case1 => simp
+  | case2 => simp
+  | case3 n v rest pids h r ih => simpa [evDeltas, r] using ih
+  | case4 n v rest pids h1 h2 r ih => simpa [evDeltas, r] using ih
+  | case5 n v rest pids h1 h2 h3 r ih => simpa [r] using ih
+  | case6 => simp
+  | case7 n v rest h1 h2 h3 p pids' v' r ih => simpa [r] using ih
+
+def accStep (acc : Int × Int) (op : Op) (o : Out) : Int × Int :=
+  match op with
+  | .init true _ => (0, 0)
+  | _ => (acc.1 + (evDeltas o.evs).1, acc.2 + (evDeltas o.evs).2)
+
+theorem countersFrom_cons (acc : Int × Int) (op : Op) (ops : List Op) (o : Out) (outs : List Out) :
+    countersFrom acc (op :: ops) (o :: outs) = countersFrom (accStep acc op o) ops outs := rfl
+
+theorem step_counters (q : Q) (op : Op) (hwf : WFOp op) (h : Inv q) :
+    accStep ((q.items.length : Int), (nz q.items : Int)) op (step q op).2 =
+      (((step q op).1.items.length : Int), (nz (step q op).1.items : Int)) := by
+  obtain ⟨hd, hs, hq⟩ := h
+  cases op with
+  | add now e =>
+    have he0 : e.id = 0 := hwf.2
+    apply add_elim (P := fun r => accStep ((q.items.length : Int), (nz q.items : Int)) (.add now e) r.2 =
+      ((r.1.items.length : Int), (nz r.1.items : Int)))
+    · intro _
+      simp [accStep, evDeltas, Q.items, he0]; omega
+    · intro v done' _ hx
+      have hl := extractFirst_length hx
+      have hn := nz_perm (extractFirst_some hx).2.1
+      have hv := hd v (extractFirst_mem hx)
+      simp [hv] at hn
+      simp [accStep, evDeltas, Q.items, he0, hl, ← hn]; omega
+    · intro v r rest' p _ hx hp
+      have hl := extractFirst_length hx
+      have hn := nz_perm (extractFirst_some hx).2.1
+      have hv := ((isQueued_iff v).1 (hp v (extractFirst_some hx).1)).2
+      simp [hv] at hn
+      simp [accStep, evDeltas, Q.items, he0, hl, ← hn]
+    · intro _
+      simp [accStep, evDeltas]
+  | read now pids =>
+    apply read_elim (P := fun r => accStep ((q.items.length : Int), (nz q.items : Int)) (.read now pids) r.2 =
+      ((r.1.items.length : Int), (nz r.1.items : Int)))
+    · intro _
+      simp [accStep, evDeltas]
+    · intro hdr _
+      have hsuf := readLoop_suffix now q.ie q.limit (min pids.length q.items.length) q.rest pids
+      have hk := readLoop_kept_ids now q.ie q.limit (min pids.length q.items.length) q.rest pids
+      obtain ⟨hl1, hl2, hl3⟩ := readLoop_len now q.ie q.limit (min pids.length q.items.length) q.rest pids
+      have h0 : ∀ e ∈ q.rest, e.id = 0 := fun e he => ((isQueued_iff e).1 (hq hdr e he)).2
+      have hz1 := nz_of_all_zero h0
+      have hz2 := nz_of_all_zero (fun e he => h0 e (hsuf.subset he))
+      have hz3 := nz_of_all_nz (fun e he => hwf _ (hk e he))
+      simp only [accStep, evDeltas_readLoop]
+      generalize readLoop now q.ie q.limit (min pids.length q.items.length) q.rest pids = r at *
+      simp only [evDeltas, Q.items, List.length_append, nz_append, hz1, hz2, hz3, hl2, hl3]
+      simp; omega
+  | readInflight now n =>
+    apply readInflight_elim
+      (P := fun r => accStep ((q.items.length : Int), (nz q.items : Int)) (.readInflight now n) r.2 =
+        ((r.1.items.length : Int), (nz r.1.items : Int)))
+    · intro _
+      simp [accStep, evDeltas, Q.items]
+    · intro out rest' d heq
+      obtain ⟨pre, h1, h2, _, _⟩ := inflightLoop_spec now q.ie (min n q.items.length) q.rest
+      simp only [heq] at h1 h2
+      simp only [accStep, evDeltas, Q.items, h2, nz_append, nz_map_refresh, List.length_append, List.length_map]
+      rw [h1]
+      simp; omega
+  | remove pid =>
+    apply remove_elim (P := fun r => accStep ((q.items.length : Int), (nz q.items : Int)) (.remove pid) r.2 =
+      ((r.1.items.length : Int), (nz r.1.items : Int)))
+    · intro v done' hx
+      have hl := extractFirst_length hx
+      have hn := nz_perm (extractFirst_some hx).2.1
+      have hv := hd v (extractFirst_mem hx)
+      simp [hv] at hn
+      simp [accStep, evDeltas, Q.items, hl, ← hn]; omega
+    · simp [accStep, evDeltas]
+  | replace e =>
+    apply replace_elim (P := fun r => accStep ((q.items.length : Int), (nz q.items : Int)) (.replace e) r.2 =
+      ((r.1.items.length : Int), (nz r.1.items : Int)))
+    · intro done' hx
+      obtain ⟨pre, x, post, h1, h2, h3⟩ := replaceFirst_some hx
+      simp at h3
+      simp [accStep, evDeltas, Q.items, h1, h2, h3]
+    · intro _
+      simp [accStep, evDeltas]
+  | init clean limit =>
+    cases clean
+    · simp [accStep, evDeltas, step, Q.init, Q.items]
+    · simp [accStep, step, Q.init, Q.items]
+  | close => simp [accStep, evDeltas, step, Q.close, Q.items]
+
+theorem run_counters_gen (q : Q) (ops : List Op) (hwf : ∀ op ∈ ops, WFOp op) (h : Inv q) :
+    countersFrom ((q.items.length : Int), (nz q.items : Int)) ops (run q ops).2 =
+      (((run q ops).1.items.length : Int), (nz (run q ops).1.items : Int)) := by
+  induction ops generalizing q with
+  | nil => rfl
+  | cons op ops ih =>
+    rw [run_cons, countersFrom_cons, step_counters q op (hwf op List.mem_cons_self) h]
+    exact ih _ (fun o ho => hwf o (List.mem_cons_of_mem _ ho)) (step_inv q op (hwf op List.mem_cons_self) h)
+
+theorem run_counters (max ie : Nat) (ops : List Op) (hwf : ∀ op ∈ ops, WFOp op) :
+    let r := run (new max ie) ops
+    counters ops r.2 = ((r.1.items.length : Int), ((r.1.items.filter (fun e => e.id != 0)).length : Int)) := by
+  exact run_counters_gen (new max ie) ops hwf (inv_new max ie)
 
 end GmqttVerif.Queue
